@@ -39,6 +39,7 @@ type unit struct {
 	Excluded    int64                `json:"excluded_by_known_findings"`
 	Exhaustive  bool                 `json:"exhaustive"`
 	Notes       []string             `json:"notes,omitempty"`
+	KeySamples  []string             `json:"key_samples,omitempty"`
 
 	hashes map[uint64]struct{}
 	seenNT int64
@@ -79,6 +80,13 @@ func Case(check string, key string, nontrivial bool, labels ...string) {
 	}
 	if nontrivial {
 		u.Nontrivial++
+		if len(u.KeySamples) < 3 {
+			k := key
+			if len(k) > 400 {
+				k = k[:400] + "…"
+			}
+			u.KeySamples = append(u.KeySamples, k)
+		}
 		if len(u.hashes) < maxDistinct {
 			u.hashes[hash(key)] = struct{}{}
 		} else {
